@@ -1,7 +1,7 @@
 // C19 native harness: compiles the UNMODIFIED repository source molli_xt/distance.cpp (found through
 // -I<repo>/molli_xt, together with _molli_xt.hpp) against the pybind11 stand-in in c19_pybind11_shim/,
 // runs molli::_init_distance() to obtain the registration table, and calls every registered kernel BY ITS
-// EXPORTED NAME over a shape sweep, comparing each element with a long-double loop.
+// EXPORTED NAME over a shape sweep and a memory-layout sweep, comparing each element with a long-double loop.
 //
 //   c19_harness ref <seed> <rounds>          single thread, reference comparison   (ASan+UBSan build)
 //   c19_harness threads <n> <seed> <reps>    n threads on shared inputs            (TSan build)
@@ -9,8 +9,17 @@
 // The semantics expected of a name come from the name alone (what a Python caller sees):
 //   cdist22*  (N,3) x (M,3) -> (N,M)      cdist32*  (X,N,3) x (M,3) -> (X,N,M)
 //   *_eu2     squared Euclidean distance  *_eu      Euclidean distance
-// Output is line oriented (REG/OTHER/CALLS/ELEMS/MISMATCH/SHAPE/INPUTCHANGED/NOGIL/THREADMISMATCH/DONE) and
-// parsed by vmon/props/C19.py.  Sanitizer reports go to stderr and abort the process.
+//
+// Caller side: an argument is described the way a Python caller holds it -- LOGICAL values plus a memory layout (a view
+// with its own strides over an exact-size buffer: a, a.T, a[:, ::2], a[:, ::-1], a[::2], a[::-1], a[:, 2:5], broadcast_to,
+// swapaxes).  The call goes through the registration recorded by the stand-in's module_::def, which converts each argument
+// to the kernel's declared array type as pybind11's type caster does (a C-ordered copy only if that type carries c_style
+// and the view is not C-contiguous, ...; see pybind11.h) and then calls the kernel.  The reference is computed from the
+// logical values; the result is read through ITS strides.
+//
+// Output is line oriented (REG/OTHER/CALLS/ELEMS/MISMATCH/MMLAYOUT/SHAPE/INPUTCHANGED/NOGIL/RAISED/LAYOUT/.../DONE, stdout
+// line-buffered so that lines printed before a sanitizer abort survive) and parsed by vmon/props/C19.py.  Sanitizer reports
+// go to stderr and abort the process.
 #include <distance.cpp>
 
 #include <atomic>
@@ -22,8 +31,9 @@
 #include <thread>
 
 namespace {
-template <typename T> using arr = molli::carray<T>;
-template <typename T> using kern = pybind11::module_::kernel<T>;
+template <typename T> using arr = pybind11::array_data<T>;          // an ndarray as the caller holds it
+template <typename T> using reg = pybind11::c19::registration<T>;
+template <typename T> using table_t = std::vector<reg<T>>;
 
 struct Rng {  // splitmix64: deterministic, independent of libc
     uint64_t s;
@@ -35,8 +45,7 @@ struct Rng {  // splitmix64: deterministic, independent of libc
 
 // value regimes: 0 uniform [-10,10]; 1 far from the origin (cancellation); 2 small integers (ties, zeros);
 // 3 mixed magnitudes 1e-3 .. 1e3; 4 duplicated points (exact zeros)
-template <typename T> void fill(arr<T> &a, Rng &r, int regime) {
-    T *p = a.mutable_data(); const ssize_t n = a.size();
+template <typename T> void fill(T *p, ssize_t n, Rng &r, int regime) {
     for (ssize_t k = 0; k < n; ++k) {
         double v;
         switch (regime) {
@@ -50,6 +59,57 @@ template <typename T> void fill(arr<T> &a, Rng &r, int regime) {
     }
 }
 
+// ---- memory layouts of a caller-side array of logical shape (..., 3)
+enum Layout { L_C, L_F, L_LASTSTEP, L_LASTREV, L_FIRSTSTEP, L_FIRSTREV, L_COLWINDOW, L_BCASTFIRST, L_BCASTLAST,
+              L_SWAP01, L_SWAP12, L_COUNT };
+const char *const LNAME[L_COUNT] = {"c-contiguous", "fortran-transposed", "strided-last-axis", "reversed-last-axis",
+                                    "strided-first-axis", "reversed-first-axis", "column-window", "broadcast-first-axis",
+                                    "broadcast-last-axis", "swapaxes-0-1", "swapaxes-1-2"};
+constexpr int NL2 = L_SWAP01;      // layouts meaningful for a 2-d array (swapaxes-0-1 of a 2-d array is fortran-transposed)
+constexpr int NL3 = L_COUNT;
+
+template <typename T> struct Caller {
+    arr<T> a; std::vector<T> logical, base0; Layout lay;
+    bool base_unchanged() const { return base0.empty() || std::memcmp(base0.data(), a.base_data(), base0.size() * sizeof(T)) == 0; }
+};
+
+std::vector<ssize_t> cstr(const std::vector<ssize_t> &shape) {      // C strides in elements
+    std::vector<ssize_t> s(shape.size(), 1);
+    for (size_t k = shape.size(); k-- > 1;) s[k - 1] = s[k] * shape[k];
+    return s;
+}
+
+template <typename T> Caller<T> make_caller(const std::vector<ssize_t> &shape, Layout lay, Rng &rng, int regime) {
+    const size_t n = shape.size();
+    std::vector<ssize_t> bshape = shape, est; ssize_t first = 0;
+    switch (lay) {
+        case L_C: est = cstr(shape); break;                                                          // a
+        case L_F: { est.assign(n, 1); for (size_t k = 1; k < n; ++k) est[k] = est[k - 1] * shape[k - 1]; } break;   // b.T, b of the reversed shape
+        case L_LASTSTEP: bshape[n - 1] = 2 * shape[n - 1] - 1; est = cstr(bshape); est[n - 1] = 2; break;           // b[..., ::2]
+        case L_LASTREV: est = cstr(shape); first = shape[n - 1] - 1; est[n - 1] = -1; break;                        // b[..., ::-1]
+        case L_FIRSTSTEP: bshape[0] = shape[0] ? 2 * shape[0] - 1 : 0; est = cstr(bshape); est[0] *= 2; break;      // b[::2]
+        case L_FIRSTREV: est = cstr(shape); first = shape[0] ? (shape[0] - 1) * est[0] : 0; est[0] = -est[0]; break;   // b[::-1]
+        case L_COLWINDOW: bshape[n - 1] = shape[n - 1] + 2; est = cstr(bshape); first = 2; break;                   // b[..., 2:5]
+        case L_BCASTFIRST: bshape[0] = 1; est = cstr(bshape); est[0] = 0; break;                                    // broadcast_to(b[None], shape)
+        case L_BCASTLAST: bshape[n - 1] = 1; est = cstr(bshape); est[n - 1] = 0; break;                             // broadcast_to(b[..., None], shape)
+        case L_SWAP01: { bshape = {shape[1], shape[0], shape[2]}; auto bs = cstr(bshape); est = {bs[1], bs[0], bs[2]}; } break;
+        case L_SWAP12: { bshape = {shape[0], shape[2], shape[1]}; auto bs = cstr(bshape); est = {bs[0], bs[2], bs[1]}; } break;
+        default: std::abort();
+    }
+    ssize_t nbase = 1, size = 1;
+    for (auto d : bshape) nbase *= d;
+    for (auto d : shape) size *= d;
+    if (size == 0 || nbase == 0) first = 0;
+    std::vector<ssize_t> bytes(est);
+    for (auto &s : bytes) s *= ssize_t(sizeof(T));
+    Caller<T> c{arr<T>(shape, bytes, nbase, first), {}, {}, lay};
+    fill(c.a.mutable_base_data(), nbase, rng, regime);
+    c.base0.assign(c.a.base_data(), c.a.base_data() + nbase);
+    c.logical.resize(size_t(size));
+    for (ssize_t k = 0; k < size; ++k) c.logical[size_t(k)] = c.a.logical(k);
+    return c;
+}
+
 struct Family { int nd1; bool squared; bool known; char typed; };  // typed: 'f', 'd' or 0
 Family family(const std::string &n) {
     Family f{0, false, false, 0};
@@ -61,66 +121,118 @@ Family family(const std::string &n) {
     f.known = true; return f;
 }
 
-long n_calls = 0, n_elems = 0, n_mismatch = 0, n_shape = 0, n_inputchanged = 0;
+long n_calls = 0, n_elems = 0, n_mismatch = 0, n_shape = 0, n_inputchanged = 0, n_raised = 0;
+long n_layout[L_COUNT] = {0}, n_noncontig_calls = 0, n_noncontig_elems = 0, n_cast_copy = 0, n_cast_pass = 0, n_pass_noncontig = 0;
+std::map<std::string, long> mm_printed;
+std::map<std::string, long> mm_by_layout;        // "name w la lb" -> mismatching elements
+
+template <typename T> bool logical_equals(const arr<T> &x, const std::vector<T> &want) {
+    if (size_t(x.size()) != want.size()) return false;
+    for (size_t k = 0; k < want.size(); ++k) if (std::memcmp(&x.logical(ssize_t(k)), &want[k], sizeof(T))) return false;
+    return true;
+}
 
 template <typename T>
-void check_one(const std::string &name, kern<T> fn, const Family &fam, ssize_t X, ssize_t N, ssize_t M, Rng &rng, int regime) {
+void check_one(const reg<T> &e, const Family &fam, ssize_t X, ssize_t N, ssize_t M, Rng &rng, int regime, Layout la, Layout lb) {
     const char tc = sizeof(T) == 4 ? 'f' : 'd';
-    arr<T> a = fam.nd1 == 2 ? arr<T>({N, ssize_t(3)}) : arr<T>({X, N, ssize_t(3)});
-    arr<T> b({M, ssize_t(3)});
-    fill(a, rng, regime); fill(b, rng, regime == 4 ? 4 : regime);
-    std::vector<T> a0(a.data(), a.data() + a.size()), b0(b.data(), b.data() + b.size());
-    arr<T> res = fn(a, b);
-    ++n_calls;
+    const std::string &name = e.name;
+    Caller<T> a = make_caller<T>(fam.nd1 == 2 ? std::vector<ssize_t>{N, 3} : std::vector<ssize_t>{X, N, 3}, la, rng, regime);
+    Caller<T> b = make_caller<T>({M, 3}, lb, rng, regime);
+    const std::vector<T> &a0 = a.logical, &b0 = b.logical;
+    const bool noncontig = !a.a.c_contiguous() || !b.a.c_contiguous();
+    pybind11::c19::call_record<T> rec;
+    arr<T> res;
+    ++n_calls; ++n_layout[la]; ++n_layout[lb];
+    if (noncontig) ++n_noncontig_calls;
+    try {
+        res = e.call(a.a, b.a, &rec);
+    } catch (const std::exception &ex) {
+        if (++n_raised <= 10) std::printf("RAISED %s %c layouts=%s/%s shape=%zd,%zd,%zd what=%s\n", name.c_str(), tc, LNAME[la], LNAME[lb], X, N, M, ex.what());
+        return;
+    }
+    for (int k = 0; k < 2; ++k) {
+        if (rec.copied[k]) ++n_cast_copy; else { ++n_cast_pass; if (!rec.arg[k].c_contiguous()) ++n_pass_noncontig; }
+    }
     if (pybind11::c19::alloc_without_gil) { std::printf("NOGIL %s %c\n", name.c_str(), tc); pybind11::c19::alloc_without_gil = 0; }
-    if ((a.size() && std::memcmp(a0.data(), a.data(), a0.size() * sizeof(T))) ||
-        (b.size() && std::memcmp(b0.data(), b.data(), b0.size() * sizeof(T)))) {
-        if (++n_inputchanged <= 10) std::printf("INPUTCHANGED %s %c shape=%zd,%zd,%zd\n", name.c_str(), tc, X, N, M);
+    // neither the caller's memory (whole buffers, gaps of the views included) nor what the kernel received may have changed
+    if (!a.base_unchanged() || !b.base_unchanged() || !logical_equals(rec.arg[0], a0) || !logical_equals(rec.arg[1], b0)) {
+        if (++n_inputchanged <= 10) std::printf("INPUTCHANGED %s %c layouts=%s/%s shape=%zd,%zd,%zd\n", name.c_str(), tc, LNAME[la], LNAME[lb], X, N, M);
     }
     std::vector<ssize_t> want_shape = fam.nd1 == 2 ? std::vector<ssize_t>{N, M} : std::vector<ssize_t>{X, N, M};
     if (res.shape_vec() != want_shape) {
         if (++n_shape <= 10) {
-            std::printf("SHAPE %s %c in=%zd,%zd,%zd out=", name.c_str(), tc, X, N, M);
+            std::printf("SHAPE %s %c layouts=%s/%s in=%zd,%zd,%zd out=", name.c_str(), tc, LNAME[la], LNAME[lb], X, N, M);
             for (auto d : res.shape_vec()) std::printf("%zd,", d);
             std::printf("\n");
         }
         return;
     }
     const ssize_t XX = fam.nd1 == 2 ? 1 : X;
-    const T *r = res.data();
+    long bad = 0;
     for (ssize_t x = 0; x < XX; ++x) for (ssize_t i = 0; i < N; ++i) for (ssize_t j = 0; j < M; ++j) {
         const T *p = a0.data() + (x * N + i) * 3, *q = b0.data() + j * 3;
         long double s = 0;
         for (int k = 0; k < 3; ++k) { long double d = (long double)p[k] - (long double)q[k]; s += d * d; }
         long double want = fam.squared ? s : sqrtl(s);
-        long double got = r[(x * N + i) * M + j];
+        long double got = res.logical((x * N + i) * M + j);
         long double tol = 4.0L * std::numeric_limits<T>::epsilon() * fabsl(want) + std::numeric_limits<T>::min();
         ++n_elems;
+        if (noncontig) ++n_noncontig_elems;
         if (!(fabsl(got - want) <= tol)) {
-            if (++n_mismatch <= 12)
-                std::printf("MISMATCH %s %c shape=%zd,%zd,%zd regime=%d idx=%zd,%zd,%zd p=(%.9g,%.9g,%.9g) q=(%.9g,%.9g,%.9g) got=%.17Lg want=%.17Lg\n",
-                            name.c_str(), tc, X, N, M, regime, x, i, j, double(p[0]), double(p[1]), double(p[2]),
+            ++bad;
+            if ((++n_mismatch <= 12) | (++mm_printed[name + tc] <= 1))      // the first dozen, and the first of every registration
+                std::printf("MISMATCH %s %c layouts=%s/%s shape=%zd,%zd,%zd regime=%d idx=%zd,%zd,%zd p=(%.9g,%.9g,%.9g) q=(%.9g,%.9g,%.9g) got=%.17Lg want=%.17Lg\n",
+                            name.c_str(), tc, LNAME[la], LNAME[lb], X, N, M, regime, x, i, j, double(p[0]), double(p[1]), double(p[2]),
                             double(q[0]), double(q[1]), double(q[2]), got, want);
         }
     }
+    if (bad) {
+        const std::string key = name + " " + tc + " " + LNAME[la] + " " + LNAME[lb];
+        if (!mm_by_layout.count(key)) std::printf("MMLAYOUT %s\n", key.c_str());     // printed at once: survives a later abort
+        mm_by_layout[key] += bad;
+    }
 }
 
+uint64_t name_seed(uint64_t seed, const std::string &name, size_t width, uint64_t salt) {
+    return seed * 1000003ULL + std::hash<std::string>{}(name) % 1000 + width + salt;
+}
+
+// shape sweep, both arguments C-contiguous
 template <typename T>
-void sweep(const std::vector<std::pair<std::string, kern<T>>> &table, uint64_t seed, int rounds) {
+void sweep(const table_t<T> &table, uint64_t seed, int rounds) {
     static const ssize_t NS[] = {0, 1, 2, 7, 64}, XS[] = {0, 1, 2, 5};
     for (const auto &e : table) {
-        Family fam = family(e.first);
+        Family fam = family(e.name);
         if (!fam.known) continue;
-        Rng rng{seed * 1000003ULL + std::hash<std::string>{}(e.first) % 1000 + sizeof(T)};
+        Rng rng{name_seed(seed, e.name, sizeof(T), 0)};
         for (int round = 0; round < rounds; ++round)
             for (int regime = 0; regime < 5; ++regime) {
                 for (ssize_t N : NS) for (ssize_t M : NS) {
-                    if (fam.nd1 == 2) check_one<T>(e.first, e.second, fam, 1, N, M, rng, regime);
-                    else for (ssize_t X : XS) check_one<T>(e.first, e.second, fam, X, N, M, rng, regime);
+                    if (fam.nd1 == 2) check_one<T>(e, fam, 1, N, M, rng, regime, L_C, L_C);
+                    else for (ssize_t X : XS) check_one<T>(e, fam, X, N, M, rng, regime, L_C, L_C);
                 }
                 for (int extra = 0; extra < 6; ++extra)  // seeded odd shapes
-                    check_one<T>(e.first, e.second, fam, 1 + rng.below(6), rng.below(90), rng.below(90), rng, regime);
+                    check_one<T>(e, fam, 1 + rng.below(6), rng.below(90), rng.below(90), rng, regime, L_C, L_C);
             }
+    }
+}
+
+// layout sweep: every pair (layout of the first argument, layout of the second) x a few shapes incl. 0 and 1 points
+template <typename T>
+void layout_sweep(const table_t<T> &table, uint64_t seed, int rounds) {
+    static const ssize_t SH[][3] = {{1, 0, 0}, {1, 1, 1}, {0, 2, 3}, {2, 0, 3}, {3, 3, 0}, {1, 1, 4}, {2, 2, 7}, {3, 5, 2}};   // X, N, M
+    for (const auto &e : table) {
+        Family fam = family(e.name);
+        if (!fam.known) continue;
+        Rng rng{name_seed(seed, e.name, sizeof(T), 7777)};
+        const int nla = fam.nd1 == 2 ? NL2 : NL3;
+        for (int round = 0; round < rounds; ++round)
+            for (int regime = 0; regime < 5; ++regime)
+                for (int la = 0; la < nla; ++la) for (int lb = 0; lb < NL2; ++lb) {
+                    for (const auto &s : SH) check_one<T>(e, fam, fam.nd1 == 2 ? 1 : s[0], s[1], s[2], rng, regime, Layout(la), Layout(lb));
+                    for (int extra = 0; extra < 2; ++extra)  // seeded shapes
+                        check_one<T>(e, fam, 1 + rng.below(4), 1 + rng.below(24), 1 + rng.below(24), rng, regime, Layout(la), Layout(lb));
+                }
     }
 }
 
@@ -128,54 +240,69 @@ void sweep(const std::vector<std::pair<std::string, kern<T>>> &table, uint64_t s
 std::atomic<int> gate{0};
 std::atomic<long> thread_mismatch{0}, thread_calls{0};
 
-template <typename T> struct Shared { arr<T> a2, a3, b; std::vector<std::vector<T>> serial; };
+template <typename T> struct Shared { Caller<T> a2, a3, b; std::vector<std::vector<T>> serial; };
+
+template <typename T> std::vector<T> flat(const arr<T> &r) {
+    std::vector<T> v(size_t(r.size()));
+    for (size_t k = 0; k < v.size(); ++k) v[k] = r.logical(ssize_t(k));
+    return v;
+}
 
 template <typename T>
-void prepare(Shared<T> &s, const std::vector<std::pair<std::string, kern<T>>> &table, uint64_t seed) {
+void prepare(Shared<T> &s, const table_t<T> &table, uint64_t seed) {
     Rng rng{seed + 17 * sizeof(T)};
-    s.a2 = arr<T>({ssize_t(160), ssize_t(3)}); s.a3 = arr<T>({ssize_t(3), ssize_t(120), ssize_t(3)}); s.b = arr<T>({ssize_t(90), ssize_t(3)});
-    fill(s.a2, rng, 0); fill(s.a3, rng, 0); fill(s.b, rng, 0);
+    s.a2 = make_caller<T>({160, 3}, L_C, rng, 0); s.a3 = make_caller<T>({3, 120, 3}, L_C, rng, 0); s.b = make_caller<T>({90, 3}, L_C, rng, 0);
     for (const auto &e : table) {
-        Family fam = family(e.first);
+        Family fam = family(e.name);
         if (!fam.known) { s.serial.emplace_back(); continue; }
-        arr<T> r = e.second(fam.nd1 == 2 ? s.a2 : s.a3, s.b);
-        s.serial.emplace_back(r.data(), r.data() + r.size());
+        s.serial.push_back(flat(e.call(fam.nd1 == 2 ? s.a2.a : s.a3.a, s.b.a, nullptr)));
     }
 }
 
 template <typename T>
-void worker(const Shared<T> *s, const std::vector<std::pair<std::string, kern<T>>> *table, int reps, int tid) {
+void worker(const Shared<T> *s, const table_t<T> *table, int reps, int tid) {
     while (gate.load(std::memory_order_acquire) == 0) std::this_thread::yield();
     for (int rep = 0; rep < reps; ++rep)
         for (size_t k = 0; k < table->size(); ++k) {
             size_t kk = (k + size_t(tid)) % table->size();  // threads start on different kernels
             const auto &e = (*table)[kk];
-            Family fam = family(e.first);
+            Family fam = family(e.name);
             if (!fam.known) continue;
-            arr<T> r = e.second(fam.nd1 == 2 ? s->a2 : s->a3, s->b);
+            std::vector<T> r = flat(e.call(fam.nd1 == 2 ? s->a2.a : s->a3.a, s->b.a, nullptr));
             thread_calls.fetch_add(1, std::memory_order_relaxed);
             const auto &want = s->serial[kk];
-            if (size_t(r.size()) != want.size() || (want.size() && std::memcmp(r.data(), want.data(), want.size() * sizeof(T))))
+            if (r.size() != want.size() || (want.size() && std::memcmp(r.data(), want.data(), want.size() * sizeof(T))))
                 thread_mismatch.fetch_add(1, std::memory_order_relaxed);
         }
+}
+
+template <typename T> void print_table(const table_t<T> &t, char tc) {
+    for (auto &e : t) std::printf("REG %s %c flags=%d,%d,%d\n", e.name.c_str(), tc, e.flags_ret, e.flags_a, e.flags_b);
 }
 }  // namespace
 
 int main(int argc, char **argv) {
     if (argc < 2) { std::fprintf(stderr, "usage: c19_harness ref <seed> <rounds> | threads <n> <seed> <reps>\n"); return 2; }
+    std::setvbuf(stdout, nullptr, _IOLBF, 0);
     pybind11::module_ m;
     molli::_init_distance(m);
-    for (auto &e : m.f32) std::printf("REG %s f\n", e.first.c_str());
-    for (auto &e : m.f64) std::printf("REG %s d\n", e.first.c_str());
+    print_table(m.f32, 'f'); print_table(m.f64, 'd');
     for (auto &n : m.other) std::printf("OTHER %s\n", n.c_str());
-    for (auto &e : m.f32) if (!family(e.first).known) std::printf("OTHER %s\n", e.first.c_str());
-    for (auto &e : m.f64) if (!family(e.first).known) std::printf("OTHER %s\n", e.first.c_str());
+    for (auto &e : m.f32) if (!family(e.name).known) std::printf("OTHER %s\n", e.name.c_str());
+    for (auto &e : m.f64) if (!family(e.name).known) std::printf("OTHER %s\n", e.name.c_str());
     std::string mode = argv[1];
     if (mode == "ref") {
         uint64_t seed = argc > 2 ? std::strtoull(argv[2], nullptr, 10) : 0; int rounds = argc > 3 ? std::atoi(argv[3]) : 1;
+        // layouts first: what is printed before a sanitizer abort then already names the layouts that give wrong values
+        layout_sweep<float>(m.f32, seed, rounds);
+        layout_sweep<double>(m.f64, seed, rounds);
         sweep<float>(m.f32, seed, rounds);
         sweep<double>(m.f64, seed, rounds);
-        std::printf("CALLS %ld\nELEMS %ld\nNMISMATCH %ld\nNSHAPE %ld\nNINPUTCHANGED %ld\n", n_calls, n_elems, n_mismatch, n_shape, n_inputchanged);
+        std::printf("CALLS %ld\nELEMS %ld\nNMISMATCH %ld\nNSHAPE %ld\nNINPUTCHANGED %ld\nNRAISED %ld\n", n_calls, n_elems, n_mismatch, n_shape, n_inputchanged, n_raised);
+        for (int l = 0; l < L_COUNT; ++l) std::printf("LAYOUT %s %ld\n", LNAME[l], n_layout[l]);
+        std::printf("NONCONTIGCALLS %ld\nNONCONTIGELEMS %ld\nCASTCOPY %ld\nCASTPASS %ld\nPASSNONCONTIG %ld\n",
+                    n_noncontig_calls, n_noncontig_elems, n_cast_copy, n_cast_pass, n_pass_noncontig);
+        for (auto &kv : mm_by_layout) std::printf("MMCOUNT %s %ld\n", kv.first.c_str(), kv.second);
     } else if (mode == "threads") {
         int n = argc > 2 ? std::atoi(argv[2]) : 8; uint64_t seed = argc > 3 ? std::strtoull(argv[3], nullptr, 10) : 0;
         int reps = argc > 4 ? std::atoi(argv[4]) : 3;
